@@ -18,6 +18,15 @@ def spec(tier):
                 obs.append(CH(name=f"naive_P{pools}_{'multi' if multi else 'single'}_s{si}", harness="sched.naive",
                               sym=dict(cpus=I(1, 16 if th else 8), ram=I(1, 40 if th else 20), ma=I(1, 44 if th else 22), mb=I(1, 44 if th else 22), ta=I(0, 3), tb=I(0, 3), da=I(1, 2), db=I(1, 2)),
                               fixed=dict(cfg=cfg), timeout=900))
+    # pool sizes that are not whole numbers (RAM in quarter GB: exact in binary): the container still gets exactly what is free
+    for pools in ((1, 2, 3) if th else (2,)):
+        for multi in (True, False):
+            cfg = dict(algo="naive", pools=pools, multi=multi, K=K, ram_scale=0.25,
+                       pipes=[pipe("chain3", prio=3, at=0, durs=[1, "da", 1], mems=[1, "ma", 1]), pipe("tworoots2", prio=1, at="ta", durs=[1, "db"], mems=["mb", 1]),
+                              pipe("single", prio=2, at="tb", durs=[2], mems=[1])])
+            obs.append(CH(name=f"naive_P{pools}_{'multi' if multi else 'single'}_quarter_gb", harness="sched.naive",
+                          sym=dict(cpus=I(1, 8), ram=I(4, 160 if th else 80), ma=I(1, 22), mb=I(1, 22), ta=I(0, 3), tb=I(0, 3)),
+                          fixed=dict(cfg=cfg, da=1, db=2), timeout=900))
     # a join operator whose parents finish at different times on different pools (single-operator containers)
     cfgj = dict(algo="naive", pools=2, multi=False, K=K,
                 pipes=[pipe("diamond", prio=3, at=0, durs=[1, "da", "db", 1]), pipe("single", prio=1, at="ta", durs=[1]), pipe("single", prio=2, at="tb", durs=[1])])
@@ -34,7 +43,7 @@ def spec(tier):
     return PropSpec(
         property_id="C17", obligations=obs,
         functions=["naive_pipeline", "naive_pipeline_init", "Scheduler.run_one_tick", "Executor.run_one_tick", "PipelineRuntimeStatus.get_ops"],
-        bounds={"pools": "1..3", "pipelines": 3, "ticks": K, "cpus_per_pool": "1..8", "ram_gb_per_pool": "1..20"},
+        bounds={"pools": "1..3", "pipelines": 3, "ticks": K, "cpus_per_pool": "1..8", "ram_gb_per_pool": "1..20, and k/4 for k in 4..80"},
         outside=["more than 3 pipelines / pools", "runs longer than K ticks"],
         assumptions=A_ASSUME,
         explanation=("CrossHair+z3 lock-step simulation of the real naive scheduler with the real executor: pool sizes, memory demands (failures), durations and "
